@@ -90,6 +90,43 @@ example (ev : FKey → V) : fusedValue I0 dag2 f7 2 ev 25 =
     run I0 (memberGraph dag2 [5, 4, 3]) (fun k => some (ev k)) 7 (FKey.part 5 2) :=
   C14_task I0 dag2 f7 2 ev (by decide) (by decide) 25 7 (by decide) (by decide)
 
+/-! #### nested groups that are not the first member (reachable when a collection is built on an
+     already optimised one): OPEN DEFECT of `Fused._task` on the current tree.
+
+  Full statement (false for the current code): `C14_task` for every `Fused` node the pass can produce.
+  `C14_task` above is the proven part (`fusedOK` admits nested groups in first position only).
+  The witness below is the plan of
+      d = 1 - df.sum(); inner = (df + (2 + d)).optimize(); q = inner + d
+  (0 = FromPandas, 1 = frame op, 2 = TreeReduce, 3 = `1 - sum` = d, 4 = `2 + d`, 5 = `df + …`,
+   6 = Fused[5,4] = inner with external dependencies [0, 3], 7 = `inner + d`, 8 = Fused[7, 3, 6]):
+  member 3 is written before the nested group 6, whose placeholder entry `(3, 0) ↦ "_1"` then
+  overwrites it; `"_1"` is bound to the outer group's second dependency (node 0). -/
+
+namespace C14Ex
+def dag3 : Dag :=
+  [ ⟨0, false, 2, 2, [], false, []⟩, ⟨1, true, 2, 2, [0], false, []⟩, ⟨2, false, 1, 1, [1], false, []⟩,
+    ⟨3, true, 1, 1, [2], false, []⟩, ⟨4, true, 1, 1, [3], false, []⟩, ⟨5, true, 2, 2, [0, 4], false, []⟩,
+    ⟨6, true, 2, 2, [0, 3], true, [5, 4]⟩, ⟨7, true, 2, 2, [6, 3], false, []⟩,
+    ⟨8, true, 2, 2, [2, 0], true, [7, 3, 6]⟩ ]
+def f8 : Node := ⟨8, true, 2, 2, [2, 0], true, [7, 3, 6]⟩
+def code : V → Nat
+  | .frame (r :: _) => r.pay + 1
+  | _ => 0
+/-- an interpretation that records which values an operation received -/
+def I1 : Interp := fun f args => V.frame [⟨(f : Int), 0, (args.map code).foldl (fun a b => 31 * a + b) 7⟩]
+def ev1 : FKey → V
+  | .part n i => V.frame [⟨0, 0, 100 * n + i⟩]
+  | _ => V.err
+end C14Ex
+
+/-- the order checker rejects the witness … -/
+theorem C14_task_nested_counterexample_check : nestOrderOK dag3 f8 = false := by decide
+
+/-- … and indeed the fused task computes something else than the unfused member tasks. -/
+theorem C14_task_nested_counterexample :
+    fusedValue I1 dag3 f8 0 ev1 40 ≠ run I1 (refGraph dag3) (fun k => some (ev1 k)) 40 (FKey.part 7 0) := by
+  decide
+
 /-! ### 3. meta -/
 
 /-- `Fused(group, …)` reports the partition count and dimensionality (`_meta`, `_divisions`) of
